@@ -468,4 +468,15 @@ example :
       cmpKey k₁ k₂ = .ok 1) := by
   refine ⟨by decide, by decide, ⟨_, _, rfl, rfl, by decide⟩, ⟨_, _, rfl, rfl, by decide⟩⟩
 
+/-- e. barcodes are compared component by component, NOT as one joined text (round 8, seeded change C09-p): the tumor
+    barcode "T1" is a proper prefix of "T1A", so the record with "T1" sorts first, while the joined texts
+    "tumor|normal" order the other way ('|' is above every letter and digit) -/
+example :
+    let l₁ : Loc := { tumor := .str "T1".toList, normal := .str "N".toList, chr := .str "chr1".toList, start := .int 5, stop := .int 6 }
+    let l₂ : Loc := { tumor := .str "T1A".toList, normal := .str "N".toList, chr := .str "chr1".toList, start := .int 5, stop := .int 6 }
+    "T1A|N".toList < "T1|N".toList ∧
+    ∃ k₁ k₂, mkKey .barcodesAndCoordinate [] l₁ = .ok k₁ ∧ mkKey .barcodesAndCoordinate [] l₂ = .ok k₂ ∧
+      cmpKey k₁ k₂ = .ok (-1) := by
+  refine ⟨by decide, _, _, rfl, rfl, by decide⟩
+
 end C08
